@@ -461,8 +461,15 @@ func HelperQueryArithmeticAndLogical(queryOp *structs.QueryArithmetic, resMap ma
 			} //Entries for which no matching entry in the right-hand vector are dropped
 			finalResult[lGroupID] = make(map[uint32]float64)
 			for timestamp, valueLHS := range tsLHS {
-				valueRHS := resultRHS.Results[rGroupID][timestamp]
+				valueRHS, ok := resultRHS.Results[rGroupID][timestamp]
+				if !ok && !putils.IsLogicalOperator(queryOp.Operation) {
+					// Arithmetic and comparison operators need a sample on both sides at this timestamp
+					continue
+				}
 				putils.SetFinalResult(queryOp, finalResult, lGroupID, timestamp, valueLHS, valueRHS, swapped)
+			}
+			if len(finalResult[lGroupID]) == 0 {
+				delete(finalResult, lGroupID)
 			}
 		}
 		if queryOp.Operation == sutils.LetOr || queryOp.Operation == sutils.LetUnless {
